@@ -508,7 +508,7 @@ Proof.
     pose proof (wt_variant_inv _ _ _ Hwt) as Hx. cbn [strings_small] in Hss.
     specialize (IH (ex_intro _ t Hx) Hss (d + 1)).
     intros c c' H Hb. cbn [marshal_p] in H. cbv zeta in H. cbn [relabel] in Hb |- *.
-    destruct (MAX_DEPTH <=? d); [discriminate|].
+    destruct (MAX_DEPTH <=? d); [discriminate|]. destruct (negb (ty_eqb (ty_of x) t)); [discriminate|].
     destruct (is_ok (validate_signature (to_str t))) eqn:Ev; [|discriminate]. apply validate_signature_len in Ev.
     destruct (relabel x (mfds c)) as [x' n'] eqn:Er. cbn [fst snd] in *.
     destruct (IH _ _ H) as [Hb1 Hf1]; [cbn [mfds]; rewrite Er; exact Hb|].
@@ -626,6 +626,7 @@ Proof.
     destruct (IH kv Hin) as [IHa IHb]. destruct (Hel kv Hin) as [Hwa Hwb].
     split; [apply IHa; now exists (TBase kb)|apply IHb; now exists vt].
   - cbn [marshal_p] in H. cbv zeta in H. cbn [leaves_ok]. destruct (MAX_DEPTH <=? d); [discriminate|].
+    destruct (negb (ty_eqb (ty_of x) t)); [discriminate|].
     destruct (is_ok (validate_signature (to_str t))) eqn:Ev; [|discriminate].
     apply validate_signature_len in Ev. apply N.leb_le in Ev. rewrite Ev. cbn [andb].
     exact (IH (ex_intro _ t (wt_variant_inv _ _ _ Hwt)) _ _ _ H).
